@@ -18,6 +18,10 @@
    a cache: what a cache may do with an entry that was expired and becomes unexpired again
    is not part of this property (the caches are C17).
 
+   Every resolve() call names a type and a class; the cache is keyed by (queried name,
+   type, class), so an entry of another class or type is never served.  The RRsets of a
+   response are in the class of the question.
+
    Outcome of one query (all fields always present):
      [k |-> "exc", x |-> "Timeout" | "FormError" | "EOF" | "OSError" | "NotImpl" | "Truncated" | "Other", ...]
      [k |-> "msg", rcode, qr, nq, ans, auth]     (see Chaining)                         *)
@@ -36,12 +40,14 @@ CONSTANTS Configs,        \* set of resolver configurations (records, see below)
           Outcomes(_, _), \* Outcomes(candidate, qtype): outcomes the environment may choose for a query
           Advances(_, _)  \* Advances(timeout, lifetime): clock advances the environment may choose for a query
 
-(* A configuration:
+(* A request: [qname, search ("none"|"true"|"false"), life (0 = resolver default), qtype, qclass].
+   A configuration (its qtype field is only a default kept for the driver):
    [ns |-> number of servers, rsf |-> retry_servfail, tcp |-> BOOLEAN, rna |-> raise_on_no_answer,
     cache |-> "none" | "simple" | "lru", life |-> lifetime, tmo |-> per-query timeout, qtype |-> STRING,
     search |-> Seq(name), domain |-> name, ndots |-> Int (-1 = unset), usd |-> use_search_by_default]  *)
 
 VARIABLES cfg,         \* the resolver's configuration (fixed during a behaviour)
+          qtype, qclass,  \* type and class asked for by the running resolve() call ("A"/"TXT"..., "IN"/"CH")
           now,         \* the clock
           cache,       \* the resolver's cache: <<name, type>> -> entry
           phase,       \* "idle" | "rest" (a resolution just ended) | "request" | "server" | "sleep" | "timeout" | "query" | "done"
@@ -61,13 +67,14 @@ VARIABLES cfg,         \* the resolver's configuration (fixed during a behaviour
           broken,      \* history: servers dropped for this candidate
           last,        \* history: verdict on the last reply ("-" before any)
           nxCount,     \* history: candidates (positions of allCands) concluded with NXDOMAIN
-          queried,     \* history: every name ever sent as a question by this resolver
+          queried,     \* history: every question <<name, type, class>> ever sent by this resolver
           result,      \* <<"none">> | <<"exc", class>> | <<"answer", candidate, entry>>
           nres, nq, backs   \* counters: resolutions started, queries / clock set-backs in this resolution
 
-vars == <<cfg, now, cache, phase, allCands, cands, qn, usable, cur, round, server, tcpAttempt, retryTcp,
+vars == <<cfg, qtype, qclass, now, cache, phase, allCands, cands, qn, usable, cur, round, server, tcpAttempt, retryTcp,
           backoffIdx, start, life, tmo, nx, broken, last, nxCount, queried, result, nres, nq, backs>>
 
+cfgv  == <<cfg, qtype, qclass>>
 candv == <<allCands, cands, qn, nx, nxCount>>
 srvv  == <<usable, cur, round, server, tcpAttempt, retryTcp, backoffIdx, broken>>
 timev == <<start, life, tmo>>
@@ -111,7 +118,7 @@ Put(c, key, e) == [k \in DOMAIN c \cup {key} |-> IF k = key THEN e ELSE c[k]]
 Elapsed == IF now < start THEN 0 ELSE now - start
 
 (* What one reply means (the decision table of the property). *)
-R(o) == Ch!Resolve(o, qn, cfg.qtype)
+R(o) == Ch!Resolve(o, qn, qtype)
 Verdict(o) ==
     IF o.k = "exc" THEN
         IF o.x \in {"FormError", "EOF", "OSError", "NotImpl"} THEN "drop"   \* malformed reply, network error, unsupported
@@ -133,6 +140,7 @@ EntryOf(o, t) ==
 
 ---------------------------------------------------------------------------
 InitRest ==
+    /\ qtype = "A" /\ qclass = "IN"
     /\ cache = <<>> /\ phase = "idle"
     /\ allCands = <<>> /\ cands = <<>> /\ qn = <<>> /\ nx = {} /\ nxCount = 0
     /\ usable = {} /\ cur = {} /\ round = 0 /\ server = 0 /\ tcpAttempt = FALSE /\ retryTcp = FALSE
@@ -142,9 +150,11 @@ InitRest ==
 
 Init == cfg \in Configs /\ now \in StartTimes /\ InitRest
 
-(* resolve(qname, search=sflag, lifetime=lifeArg) is called; lifeArg = 0: the resolver's lifetime *)
-Begin(q, sflag, lifeArg) ==
+(* resolve(qname, rdtype=qt, rdclass=qc, search=sflag, lifetime=lifeArg) is called;
+   lifeArg = 0: the resolver's lifetime *)
+Begin(q, sflag, lifeArg, qt, qc) ==
     /\ phase \in {"idle", "rest"}
+    /\ qtype' = qt /\ qclass' = qc
     /\ allCands' = QnamesToTry(q, sflag, cfg) /\ cands' = allCands' /\ nx' = {} /\ nxCount' = 0
     /\ start' = now /\ life' = IF lifeArg = 0 THEN cfg.life ELSE lifeArg
     /\ result' = <<"none">> /\ last' = "-" /\ nres' = nres + 1 /\ nq' = 0 /\ backs' = 0
@@ -153,7 +163,7 @@ Begin(q, sflag, lifeArg) ==
 
 Advance(d) ==
     /\ phase = "rest" /\ now' = now + d /\ phase' = "idle"
-    /\ UNCHANGED <<cfg, cache, candv, srvv, timev, ctrv, last, queried, result>>
+    /\ UNCHANGED <<cfgv, cache, candv, srvv, timev, ctrv, last, queried, result>>
 
 (* take the next candidate; consult the cache; arm the full server list *)
 NextRequest ==
@@ -162,8 +172,8 @@ NextRequest ==
           /\ result' = <<"exc", "NXDOMAIN">> /\ phase' = "done"
           /\ UNCHANGED <<candv, srvv>>
        ELSE LET c == Head(cands)
-                pk == <<c, cfg.qtype>>
-                nk == <<c, "ANY">>
+                pk == <<c, qtype, qclass>>
+                nk == <<c, "ANY", qclass>>
             IN /\ qn' = c /\ cands' = Tail(cands) /\ UNCHANGED allCands
                /\ IF UseCache /\ Fresh(pk) THEN
                      /\ result' = IF cache[pk].rr = <<"none">> /\ cfg.rna THEN <<"exc", "NoAnswer">>
@@ -177,40 +187,40 @@ NextRequest ==
                      /\ usable' = Servers /\ cur' = Servers /\ round' = 1 /\ broken' = {}
                      /\ retryTcp' = FALSE /\ tcpAttempt' = FALSE /\ backoffIdx' = 1 /\ phase' = "server"
                      /\ UNCHANGED <<result, nx, nxCount, server>>
-    /\ UNCHANGED <<cfg, now, cache, timev, ctrv, last, queried>>
+    /\ UNCHANGED <<cfgv, now, cache, timev, ctrv, last, queried>>
 
 (* the reply to the last UDP query was truncated: same server, TCP *)
 RetryTcp ==
     /\ phase = "server" /\ retryTcp
     /\ tcpAttempt' = TRUE /\ retryTcp' = FALSE /\ phase' = "timeout"
-    /\ UNCHANGED <<cfg, now, cache, candv, usable, cur, round, server, backoffIdx, broken, timev, ctrv,
+    /\ UNCHANGED <<cfgv, now, cache, candv, usable, cur, round, server, backoffIdx, broken, timev, ctrv,
                    last, queried, result>>
 
 (* no server left at all *)
 GiveUp ==
     /\ phase = "server" /\ ~retryTcp /\ cur = {} /\ usable = {}
     /\ result' = <<"exc", "NoNameservers">> /\ phase' = "done"
-    /\ UNCHANGED <<cfg, now, cache, candv, srvv, timev, ctrv, last, queried>>
+    /\ UNCHANGED <<cfgv, now, cache, candv, srvv, timev, ctrv, last, queried>>
 
 (* round exhausted: re-arm the usable servers, after a back-off *)
 Rearm ==
     /\ phase = "server" /\ ~retryTcp /\ cur = {} /\ usable # {}
     /\ cur' = usable /\ round' = round + 1 /\ phase' = "sleep"
-    /\ UNCHANGED <<cfg, now, cache, candv, usable, server, tcpAttempt, retryTcp, backoffIdx, broken, timev,
+    /\ UNCHANGED <<cfgv, now, cache, candv, usable, server, tcpAttempt, retryTcp, backoffIdx, broken, timev,
                    ctrv, last, queried, result>>
 
 MaxSleep == 2 * TicksPerSec
 Sleep(d) ==
     /\ phase = "sleep" /\ d >= 1 /\ d <= MaxSleep
     /\ now' = now + d /\ backoffIdx' = Min(backoffIdx + 1, Len(BackoffTable)) /\ phase' = "server"
-    /\ UNCHANGED <<cfg, cache, candv, usable, cur, round, server, tcpAttempt, retryTcp, broken, timev, ctrv,
+    /\ UNCHANGED <<cfgv, cache, candv, usable, cur, round, server, tcpAttempt, retryTcp, broken, timev, ctrv,
                    last, queried, result>>
 
 (* any server not yet asked in this round (the order inside a round is not prescribed) *)
 Pick(s) ==
     /\ phase = "server" /\ ~retryTcp /\ s \in cur
     /\ server' = s /\ cur' = cur \ {s} /\ tcpAttempt' = cfg.tcp /\ phase' = "timeout"
-    /\ UNCHANGED <<cfg, now, cache, candv, usable, round, retryTcp, backoffIdx, broken, timev, ctrv,
+    /\ UNCHANGED <<cfgv, now, cache, candv, usable, round, retryTcp, backoffIdx, broken, timev, ctrv,
                    last, queried, result>>
 
 (* the budget of the next query; a clock set back by more than a second may also end the resolution *)
@@ -218,18 +228,18 @@ Expire ==
     /\ phase = "timeout"
     /\ (Elapsed >= life \/ now - start < -TicksPerSec)
     /\ result' = <<"exc", "Timeout">> /\ phase' = "done"
-    /\ UNCHANGED <<cfg, now, cache, candv, srvv, timev, ctrv, last, queried>>
+    /\ UNCHANGED <<cfgv, now, cache, candv, srvv, timev, ctrv, last, queried>>
 Budget ==
     /\ phase = "timeout"
     /\ Elapsed < life
     /\ tmo' = Min(life - Elapsed, cfg.tmo) /\ phase' = "query"
-    /\ UNCHANGED <<cfg, now, cache, candv, srvv, start, life, ctrv, last, queried, result>>
+    /\ UNCHANGED <<cfgv, now, cache, candv, srvv, start, life, ctrv, last, queried, result>>
 
 (* the query is sent; the environment answers with outcome o and lets d ticks pass *)
 Query(o, d) ==
     /\ phase = "query"
     /\ now' = now + d /\ nq' = nq + 1 /\ backs' = (IF d < 0 THEN backs + 1 ELSE backs)
-    /\ queried' = queried \cup {qn}
+    /\ queried' = queried \cup {<<qn, qtype, qclass>>}
     /\ LET v == Verdict(o)
            e == EntryOf(o, now + d)
        IN /\ last' = v
@@ -239,8 +249,8 @@ Query(o, d) ==
           /\ nx' = IF v = "nxdomain" THEN nx \cup {qn} ELSE nx
           /\ nxCount' = IF v = "nxdomain" THEN nxCount + 1 ELSE nxCount
           /\ cache' = IF ~UseCache THEN cache
-                      ELSE IF v \in {"answer", "nodata"} THEN Put(cache, <<qn, cfg.qtype>>, e)
-                      ELSE IF v = "nxdomain" THEN Put(cache, <<qn, "ANY">>, e)
+                      ELSE IF v \in {"answer", "nodata"} THEN Put(cache, <<qn, qtype, qclass>>, e)
+                      ELSE IF v = "nxdomain" THEN Put(cache, <<qn, "ANY", qclass>>, e)
                       ELSE cache
           /\ result' = IF v = "answer" \/ (v = "nodata" /\ ~cfg.rna) THEN <<"answer", qn, e>>
                        ELSE IF v = "nodata" THEN <<"exc", "NoAnswer">>
@@ -249,25 +259,25 @@ Query(o, d) ==
           /\ phase' = IF v \in {"answer", "nodata", "yxdomain"} THEN "done"
                       ELSE IF v = "nxdomain" THEN "request"
                       ELSE "server"
-    /\ UNCHANGED <<cfg, allCands, cands, qn, cur, round, server, tcpAttempt, backoffIdx, timev, nres>>
+    /\ UNCHANGED <<cfgv, allCands, cands, qn, cur, round, server, tcpAttempt, backoffIdx, timev, nres>>
 
 (* resolve() returns / raises *)
 Finish ==
     /\ phase = "done" /\ phase' = "rest"
-    /\ UNCHANGED <<cfg, now, cache, candv, srvv, timev, ctrv, last, queried, result>>
+    /\ UNCHANGED <<cfgv, now, cache, candv, srvv, timev, ctrv, last, queried, result>>
 
 SleepChoices == {BackoffTable[backoffIdx]}
 
 Step ==      \* everything that happens inside one resolution
     \/ NextRequest \/ RetryTcp \/ GiveUp \/ Rearm \/ (\E d \in SleepChoices : Sleep(d))
     \/ (\E s \in cur : Pick(s)) \/ Expire \/ Budget
-    \/ (nq < MaxQ /\ \E o \in Outcomes(qn, cfg.qtype) : \E d \in Advances(tmo, life) :
+    \/ (nq < MaxQ /\ \E o \in Outcomes(qn, qtype) : \E d \in Advances(tmo, life) :
             (d < 0 => (backs < MaxBack /\ ~UseCache)) /\ Query(o, d))
     \/ Finish
 
 Next ==
     \/ Step
-    \/ (nres < MaxRes /\ \E r \in Requests : Begin(r.qname, r.search, r.life))
+    \/ (nres < MaxRes /\ \E r \in Requests : Begin(r.qname, r.search, r.life, r.qtype, r.qclass))
     \/ (nres < MaxRes /\ nres > 0 /\ \E d \in IdleAdvances : Advance(d))
 
 Spec == Init /\ [][Next]_vars
@@ -329,13 +339,17 @@ Classification ==
              /\ (result[3].rr = <<"none">>) => ~cfg.rna
        /\ (last \in {"answer", "nodata"}) => (result[1] = "answer" \/ result = <<"exc", "NoAnswer">>)
 
-(* cache keys are queried names (never canonical names) under the query type, NXDOMAIN under ANY *)
+(* cache keys are questions that were asked (queried name -- never the canonical name -- type and
+   class), NXDOMAIN under type ANY and the class that was asked *)
 CacheKeys ==
     \A key \in DOMAIN cache :
         /\ UseCache
-        /\ key[1] \in queried
-        /\ key[2] \in {cfg.qtype, "ANY"}
+        /\ \E q \in queried : key[1] = q[1] /\ key[3] = q[3] /\ key[2] \in {q[2], "ANY"}
         /\ (key[2] = "ANY") <=> (cache[key].rcode = "NXDOMAIN")
+(* an answer taken from the cache was stored for the same name, type and class *)
+CacheHitSameQuestion ==
+    (phase = "done" /\ result[1] = "answer" /\ last = "-") =>
+        /\ <<qn, qtype, qclass>> \in DOMAIN cache /\ result[3] = cache[<<qn, qtype, qclass>>]
 
 Terminates == (phase = "request") ~> (phase = "done")
 =============================================================================
